@@ -63,6 +63,9 @@ Fixed == {
   Single("l", L(<<Single("$delete", EmptyMap)>>)),
   Single("l", L(<<Single("$delete", I("1"))>>)),
   Single("l", L(<<Single("$delete", L(<<I("1")>>))>>)),
+  (* scalars inside a list pattern are compared as VALUES: what merely prints alike ("1", 1.0, true) does not match 1 *)
+  Single("l", L(<<Single("$delete", L(<<S("1")>>))>>)), Single("l", L(<<Single("$delete", L(<<F("1")>>))>>)),
+  Single("l", L(<<Mk2("$match", L(<<S("1")>>), "$value", I("2"))>>)), Single("l", L(<<Single("$delete", L(<<I("1"), S("1")>>))>>)),
   (* list patterns are not one-to-one: a pattern longer than the entry it matches *)
   Single("l", L(<<Single("$delete", L(<<I("1"), I("1")>>))>>)),
   Single("l", L(<<Mk2("$match", L(<<I("1"), I("1")>>), "$value", I("2"))>>)),
